@@ -63,11 +63,26 @@ def mk_callable(spec):
         e = Ex()
         if spec.get('deriv', True): e.deriv = e.d
         return e
+    if k in ('pow', 'product', 'plus'):
+        import atsim.potentials as ap
+        a, b = Poly(spec['a'], True, True), Poly(spec['b'], True, True)
+        f = getattr(ap, k)(a, b)
+        class W(object):
+            deriv = staticmethod(f.deriv)
+            def __call__(self, r): return f(r)
+            def d(self, r):
+                if k == 'plus': return a.d(r) + b.d(r)
+                if k == 'product': return a.d(r) * b(r) + a(r) * b.d(r)
+                return a(r) ** b(r) * (b.d(r) * math.log(a(r)) + b(r) * a.d(r) / a(r))
+        return W()
     raise ValueError(k)
 
 LABELS = ['O', 'U', 'Al', 'Gd', 'Xe', 'Si', 'Zr', 'B', 'H', 'Mg2+', 'O2-', 'a_b']
 
 def rand_callable_spec(rng):
+    if rng.random() < 0.15:
+        # composition through the library's own combinators (base positive on the grid, exponent depends on r)
+        return dict(kind=rng.choice(['pow', 'product', 'plus']), a=[round(rng.uniform(1, 4), 2), round(rng.uniform(0.1, 1), 2)], b=[round(rng.uniform(0.5, 2), 2), round(rng.uniform(-0.05, 0.2), 2)], deriv=True)
     if rng.random() < 0.75:
         n = rng.randint(1, 4)
         return dict(kind='poly', coefs=[round(rng.uniform(-5, 5), 3) for _ in range(n)], deriv=rng.random() < 0.6, deriv2=rng.random() < 0.3)
